@@ -215,6 +215,22 @@ def option_defaults(func, opt):
     return out
 
 
+def const_test(test):
+    """True / False when the test is trivially constant, else None"""
+    if isinstance(test, ast.Constant):
+        return bool(test.value)
+    if isinstance(test, ast.UnaryOp) and isinstance(test.op, ast.Not):
+        val = const_test(test.operand)
+        return None if val is None else not val
+    if isinstance(test, ast.BoolOp):
+        vals = [const_test(v) for v in test.values]
+        if isinstance(test.op, ast.And) and False in vals:
+            return False
+        if isinstance(test.op, ast.Or) and True in vals:
+            return True
+    return None
+
+
 def reachable_refusals(func):
     """raise statements of an error that can be reached from the entry
     (constant-false tests are not followed)"""
@@ -226,8 +242,9 @@ def reachable_refusals(func):
         node = todo.pop()
         for nxt, label in node.succ:
             if node.kind == "test" and isinstance(node.ast, ast.If) and \
-                    isinstance(node.ast.test, ast.Constant):
-                if label != ("true" if node.ast.test.value else "false"):
+                    const_test(node.ast.test) is not None:
+                if label != ("true" if const_test(node.ast.test)
+                             else "false"):
                     continue
             if nxt.id in seen:
                 continue
